@@ -67,7 +67,9 @@ class SpecNet(nn.Module):
             self.add_module(name, build_module(d))
 
     def forward(self, x):
-        regs = {0: x}
+        return self._run({0: x})
+
+    def _run(self, regs):
         for ins in self.spec['prog']:
             op = ins['op']
             if op == 'call':
@@ -91,6 +93,16 @@ class SpecNet(nn.Module):
             else:
                 raise ValueError(op)
         return regs[self.spec['out']]
+
+
+class SpecNet2(SpecNet):
+    """two-input variant: the second network input lives in register -1"""
+    def forward(self, x, z):
+        return self._run({0: x, -1: z})
+
+
+def make_net(spec):
+    return SpecNet2(spec) if spec.get('n_inputs', 1) == 2 else SpecNet(spec)
 
 
 # ----------------------------------------------------------------------------------------------
@@ -207,6 +219,16 @@ def gen_pit(rs, dim=None):
     _conv(b, rs, c1, rs.choice(ks1), causal=(dim == 1 and rs.chance(0.6)), bn=bn,
           dil=(rs.choice([1, 1, 2]) if dim == 1 else 1))
     b.relu(rs)
+    n_inputs = 1
+    if rs.chance(0.1) and b.size == size and not feats['input_residual']:
+        # a second network input goes through its own convolution and joins by an add
+        n_inputs = 2
+        main, c_main, size_main = b.reg, b.c, b.size
+        b.reg, b.c, b.size = -1, cin, size
+        _conv(b, rs, c1, 3, bn=False, tag='zconv')
+        b.add(b.reg, main, rs)
+        b.c, b.size = c_main, size_main
+        feats['two_inputs'] = True
     # residual block
     if rs.chance(0.6):
         skip = b.reg
@@ -282,7 +304,7 @@ def gen_pit(rs, dim=None):
         b.call(b.name('out'), {'t': 'linear', 'cin': b.c, 'cout': n_out, 'b': rs.chance(0.8)})
     in_shape = [cin] + [size] * dim
     return {'dim': dim, 'in_shape': in_shape, 'mods': b.mods, 'prog': b.prog, 'out': b.reg, 'n_out': n_out,
-            'feats': feats}
+            'feats': feats, 'n_inputs': n_inputs}
 
 
 def gen_mps(rs):
@@ -296,6 +318,17 @@ def gen_mps(rs):
     feats['has_bn'] |= bn
     _conv(b, rs, c1, rs.choice([1, 3]), bn=bn)
     b.relu(rs)
+    n_inputs = 1
+    if rs.chance(0.1):
+        # a second network input goes through its own convolution and joins by an add
+        n_inputs = 2
+        main, c_main, size_main = b.reg, b.c, b.size
+        b.reg, b.c, b.size = -1, cin, size
+        _conv(b, rs, c1, 3, bn=False, tag='zconv')
+        b.relu(rs)
+        b.add(b.reg, main, rs)
+        b.c, b.size = c_main, size_main
+        feats['two_inputs'] = True
     if rs.chance(0.6):
         skip = b.reg
         bn = rs.chance(0.5)
@@ -328,7 +361,7 @@ def gen_mps(rs):
         b.relu(rs)
     b.call(b.name('out'), {'t': 'linear', 'cin': b.c, 'cout': n_out, 'b': rs.chance(0.8)})
     return {'dim': dim, 'in_shape': [cin] + [size] * dim, 'mods': b.mods, 'prog': b.prog, 'out': b.reg,
-            'n_out': n_out, 'feats': feats}
+            'n_out': n_out, 'feats': feats, 'n_inputs': n_inputs}
 
 
 def _sn_branch(rs, dim, c, kind):
